@@ -200,9 +200,14 @@ class PropertyDescriptorRelation(PredicateClassRelation):
         """
         if not self.target_role_taker_association:
             return None
-        return self.inverse_of.get_associated_field_of_domain_type(
-            self.target_role_taker_association.target
+        # the class of the role taker itself: the field may live on a subclass of the declared role taker type
+        role_taker = self.target_role_taker
+        domain_type = (
+            role_taker.instance_type
+            if role_taker is not None and role_taker.instance is not None
+            else self.target_role_taker_association.target
         )
+        return self.inverse_of.get_associated_field_of_domain_type(domain_type)
 
     @cached_property
     def target_role_taker_association(self) -> Optional[Association]:
